@@ -92,8 +92,9 @@ Definition sum_N (l : list N) : N := fold_right N.add 0 l.
 
 (* The documented limits of a chunk table for a page of [total] values:
    counts add up to the page, every chunk has 1..4096 values, every chunk but the last is
-   flagged with log >= 1 (log = 0 is reserved for "last chunk"), the last one has log = 0,
-   and the buffers of a chunk take at most MAX_MINIBLOCK_BYTES bytes. *)
+   flagged with 1 <= log <= 12 (log = 0 is reserved for "the rest of the page"; the last chunk
+   may carry 0 or, when it is full, its power of two), and the buffers of a chunk take at most
+   MAX_MINIBLOCK_BYTES bytes. *)
 Fixpoint chunks_ok_from (chunks : list chunk) (prev total : N) : bool :=
   match chunks with
   | [] => prev =? total
@@ -102,7 +103,7 @@ Fixpoint chunks_ok_from (chunks : list chunk) (prev total : N) : bool :=
       (1 <=? n) && (n <=? MAX_MINIBLOCK_VALUES) && (prev + n <=? total)
       && (sum_N (fst c) <=? MAX_MINIBLOCK_BYTES)
       && (match cs with
-          | [] => snd c =? 0
+          | [] => true
           | _ => (1 <=? snd c) && (snd c <=? 12)
           end)
       && chunks_ok_from cs (prev + n) total
@@ -121,7 +122,7 @@ Fixpoint chunks_counts_ok_from (chunks : list chunk) (prev total : N) : bool :=
       let n := chunk_num_values c prev total in
       (1 <=? n) && (n <=? MAX_MINIBLOCK_VALUES) && (prev + n <=? total)
       && (match cs with
-          | [] => snd c =? 0
+          | [] => true
           | _ => (1 <=? snd c) && (snd c <=? 12)
           end)
       && chunks_counts_ok_from cs (prev + n) total
